@@ -175,6 +175,28 @@ def gen_model(ctx, rng, bases=None, opts=None, want_tall=True, max_modes=None, f
     return {"model": model, "desc": desc, "X": X.astype(float), "B": B}
 
 
+def gen_custom_model(ctx, rng):
+    """SSPOR on a user-supplied (Custom) basis whose modes are NOT orthonormal – any full-column-rank mode matrix is a basis – fitted
+    the only way a Custom basis can be (basis fitted beforehand, `prefit_basis=True`)."""
+    from pysensors.basis import Custom
+    from pysensors.optimizers import QR
+    from pysensors.reconstruction import SSPOR
+    for _ in range(20):
+        n = rng.randint(4, 9)
+        m = rng.randint(2, min(4, n - 1))
+        U = np.array([[rng.randint(-8, 8) / 4 for _ in range(m)] for _ in range(n)], dtype=float)
+        if rank_exact(U) == m:
+            break
+    else:
+        return None
+    b = Custom(U.copy(), n_basis_modes=m).fit()
+    model = SSPOR(basis=b, optimizer=QR())
+    model.fit(np.zeros((2, n)), quiet=True, prefit_basis=True, seed=rng.randint(0, 9))
+    desc = {"basis": "custom", "n_modes": m, "opt": "qr", "custom_U": U.tolist(), "X": U.T.tolist(), "seed": 0, "dtype": "float64",
+            "history": ["Custom(U).fit()", "fit(prefit_basis=True)"]}
+    return {"model": model, "desc": desc, "X": U.T.copy(), "B": np.array(model.basis_matrix_, dtype=float)}
+
+
 def keyword_life(model, X, which):
     """Reconstruction calls that pass documented solver keywords (SSPOR forwards them to scipy's solve / lstsq).  They are
     the caller's choice for THAT call only: whatever they do to that call's result, no later plain call – on this model or any
@@ -218,6 +240,13 @@ def _reset_n_sensors(model, keep=False):
 def rebuild(desc):
     from pysensors.optimizers import CCQR
     from pysensors.reconstruction import SSPOR
+    if desc.get("custom_U") is not None:
+        from pysensors.basis import Custom
+        from pysensors.optimizers import QR
+        U = np.array(desc["custom_U"], dtype=float)
+        model = SSPOR(basis=Custom(U.copy(), n_basis_modes=U.shape[1]).fit(), optimizer=QR())
+        model.fit(np.zeros((2, U.shape[0])), quiet=True, prefit_basis=True, seed=0)
+        return {"model": model, "desc": desc, "X": U.T.copy(), "B": np.array(model.basis_matrix_, dtype=float)}
     opt = H.make_optimizer(desc["opt"])
     if desc.get("costs") is not None:
         opt = CCQR(sensor_costs=np.array(desc["costs"]))
